@@ -29,6 +29,10 @@ DROP_GLUE_RE = re.compile(
     r"apache_avro::error::Details|apache_avro::Error|apache_avro::error::Error|apache_avro::error::CompatibilityError|serde_json::value::Value|serde_json::Value)> "
 )
 
+# functions allowed to refer to the harness crate's VERIF_* statics: its own modules and the stub targets
+HARNESS_MODULES = ("sym::", "__CPROVER_initialize")
+STATIC_USERS = {"apache_avro::util::max_allocation_bytes", "apache_avro::schema_compatibility::Checker::pointer_hash", "__CPROVER_initialize"}
+
 CBMC_FLAGS = ["--no-malloc-may-fail", "--no-undefined-shift-check", "--no-signed-overflow-check", "--nan-check",
               "--no-self-loops-to-assumptions", "--no-pointer-primitive-check", "--object-bits", "16",
               "--sat-solver", "cadical", "--slice-formula",
@@ -136,6 +140,22 @@ def prepare(meta, workdir):
         os.remove(a)
     except OSError:
         pass
+    # Kani 0.68 artefact guard: a constant operand of library code can be resolved to the symbol of a
+    # mutable static with identical initial bytes (measured: `RawVecInner::new_in` read its zero capacity
+    # from the harness crate's zero-initialised `static mut`).  The harness crate's statics are all named
+    # VERIF_*; only harness functions and the stubbed functions may refer to them.
+    ok, dump = step([GOTO_INSTRUMENT, "--show-goto-functions", b])
+    if ok:
+        cur, bad = None, set()
+        for line in dump.splitlines():
+            if line and not line[0].isspace() and " /*" in line:
+                cur = line.split(" /*")[0]
+            elif "VERIF_" in line and "address_of" in line and cur is not None:
+                if not (cur in STATIC_USERS or cur.startswith(HARNESS_MODULES)):
+                    bad.add(cur)
+        if bad:
+            log.append("constant aliased with a harness static in: " + ", ".join(sorted(bad)[:5]))
+            return None, "\n".join(log), 0
     return b, "\n".join(log), [p for p, _ in removed]
 
 
